@@ -361,8 +361,7 @@ def h8_lists_filled(prog, ctx):
                 lp = _el(st)
                 sh = loops.for_shape(lp) if lp.k == "ForStmt" else None
                 hb = cfg.loop_header(lp)
-                body_entry = [s2 for (b, i, s2) in cfg.edges() if b == hb and s2 in cfg.natural_loop(hb) and s2 != hb]
-                every_round = bool(body_entry) and all(hb not in cfg.reachable(be, avoid_blocks=[cfg.block_of(st)]) or be == cfg.block_of(st) for be in body_entry)
+                every_round = cfg.every_round_passes(hb, cfg.block_of(st))
                 if sh is not None and sh.ok and loops.covers_range(sh, 0, N) and render(ix) == sh.var and every_round:
                     if any(render(tx) == N for _, tx in terms):
                         verdict = verdict or ("ok", "slot i written in every round of %s, terminator at %s" % (sh.describe(), N))
